@@ -1554,7 +1554,7 @@ class Engine:
         ckey = self.closure_contract_key(clo)
         if ckey is not None:
             c = self.cs.contract_for(ckey)
-            if c is not None and self.run.verifying_key != self._norm(ckey):
+            if c is not None:
                 b2 = dict(bound)
                 for m in c.methods.values():
                     for p in m.args.args:
